@@ -168,6 +168,37 @@ func scenarios(r *rt.Run) ([]scen, int) {
 	add(scen{Pipe: "loopback", N: 2300, Stop: "StopTask", Stall: "run:kapacitor_loopback", Release: "after"})
 	add(scen{Pipe: "loopback", N: 900, Stop: "StopTask", Stall: "run:kapacitor_loopback", Release: "after"})
 	add(scen{Pipe: "loopback", N: 900, Stop: "DeleteTask", Stall: "run:kapacitor_loopback", Release: "after"})
+	// the stop races with goroutines that are already blocked in ExecutingTask.Wait() - services/task_store keeps
+	// one per started task: the stop must return, every waiter must return, all with the same error
+	for pi, p := range pipeOrder {
+		n := 50
+		if p == "post" {
+			n = 20
+		}
+		if p == "batch" {
+			n = 5
+		}
+		for ai, api := range allStops {
+			add(scen{Pipe: p, N: n, Stop: api, Release: "before", Waiters: 1 + (pi+ai)%2})
+			if (pi+ai)%2 == 0 || r.Thorough() {
+				st := stallsOf[p][0]
+				add(scen{Pipe: p, N: n, Stop: api, Stall: st.s, Release: "after", Waiters: 1})
+				add(scen{Pipe: p, N: n, Stop: api, Stall: st.s, Release: "after", Waiters: 2})
+			}
+		}
+	}
+	// ... and through the real services/task_store: create+enable over its HTTP handler (the service then sits in
+	// et.Wait() itself), disable / delete over its HTTP handler
+	for _, p := range []string{"influx1", "alert", "log", "union"} {
+		for _, api := range []string{"TSDisable", "TSDelete"} {
+			add(scen{Pipe: p, N: 50, Stop: api, Release: "before"})
+			add(scen{Pipe: p, N: 50, Stop: api, Stall: stallsOf[p][0].s, Release: "after"})
+		}
+	}
+	// ... also when a node has failed (every waiter gets that node's error)
+	add(scen{Pipe: "midfail", N: 50, Stop: "StopTask", Release: "before", Fail: "poison:10", Waiters: 2})
+	add(scen{Pipe: "chain", N: 50, Stop: "Close", Stall: "sink:db", Release: "after", Fail: "panic:where:5", Waiters: 2})
+	add(scen{Pipe: "fork", N: 2300, Stop: "DeleteTask", Stall: "sink:db", Release: "after", Fail: "panic:log:5", Waiters: 1})
 	// a writer that keeps offering points while the daemon shuts down: every acknowledged point counts
 	for _, p := range []string{"influx1", "alert", "log", "union", "fork"} {
 		for _, api := range []string{"Close", "DrainStopTasks"} {
